@@ -925,7 +925,7 @@ def line_map(woven):
                 region = None
         pm = re.search(r'/\*@p ([C0-9,]+)\*/', text)
         if pm and entry is not None and 'clause' in entry:
-            entry = dict(entry); entry['props'] = pm.group(1).split(',')
+            entry = dict(entry); entry['props'] = pm.group(1).split(','); entry['explicit'] = True
         res.append(entry)
         # newline accounting: the newline ending this line belongs to the file iff no region is open
         if region is None and stack:
